@@ -6,7 +6,8 @@ Written from the property text and the Kubernetes scheduling rules (a pod fits a
 labels satisfy its node selector / required node affinity, it tolerates the node's taints and its requests fit
 the allocatable), for the fragment the pass generator produces: set operators In/NotIn/Exists/DoesNotExist,
 one required affinity term, NoSchedule taints, cpu and pod-count resources, no inter-pod constraints, no
-NodePool limits, no reserved capacity.
+NodePool limits, no reserved capacity.  Which pools are "ready" is read off the NodePool's stored status conditions
+(`readyCondition`).
 -/
 import Karp.Spec.WeightPrice
 import Karp.Model.ReservedFallback
@@ -28,13 +29,16 @@ deriving Repr, DecidableEq
 structure PPool where
   name     : String
   weight   : Int           -- nil ⇒ 0
-  ready    : Bool
+  ready    : Bool          -- used when `conds` is not given: the pool is Ready
   static   : Bool
   deleting : Bool
   reqs     : List Req
   labels   : List (String × String)
   taints   : List String
   types    : List PType
+  /-- the status conditions stored on the NodePool, (type, status) with status "True" | "False" | "Unknown";
+      `some []` = a NodePool that reports nothing yet -/
+  conds    : Option (List (String × String)) := none
 deriving Repr
 
 structure PPod where
@@ -54,8 +58,30 @@ def satisfied (labels : List (String × String)) (r : Req) : Bool :=
   | some v => admits r v
   | none => r.op == .notIn || r.op == .doesNotExist
 
+/-- The property's "ready NodePool", read off the API object: the NodePool reports the condition `Ready` and reports it
+    as `True`.  A pool whose readiness is `False`, is `Unknown` (a dependency such as its NodeClass has not been resolved
+    or validated yet) or is not reported at all (nobody has reconciled the pool yet) is NOT a ready pool: nothing is
+    known to be launchable from it, so its weight must not attract pods. -/
+def readyCondition (conds : List (String × String)) : Bool :=
+  conds.any (fun c => c.1 == "Ready" && c.2 == "True") && conds.all (fun c => !(c.1 == "Ready") || c.2 == "True")
+
+def poolReady (p : PPool) : Bool :=
+  match p.conds with
+  | some cs => readyCondition cs
+  | none => p.ready
+
 /-- a "ready NodePool" the provisioner may use: Ready, dynamic (no replicas), not being deleted -/
-def poolUsable (p : PPool) : Bool := p.ready && !p.static && !p.deleting
+def poolUsable (p : PPool) : Bool := poolReady p && !p.static && !p.deleting
+
+/-- why a pool is not usable (verdict text only) -/
+def whyUnusable (p : PPool) : String :=
+  if p.static then "it is a static pool"
+  else if p.deleting then "it is being deleted"
+  else match p.conds with
+    | none => "its Ready condition is not True"
+    | some cs => match cs.lookup "Ready" with
+      | some st => s!"its Ready condition is {st}, not True"
+      | none => "it reports no Ready condition (not reconciled yet)"
 
 def tolerates (p : PPool) (pod : PPod) : Bool := p.taints.all (fun k => pod.tol.contains k)
 
@@ -102,7 +128,7 @@ def claimVerdict (pools : List PPool) (pods : List PPod) (maxTypes : Int) (c : C
       match group with
       | [] => none
       | opener :: _ =>
-        if !poolUsable p then some s!"pod {opener.name} was given a node in NodePool {p.name}, which is not a ready dynamic pool"
+        if !poolUsable p then some s!"pod {opener.name} was given a node in NodePool {p.name}, which is not a ready dynamic pool: {whyUnusable p}"
         else if !hosts p [opener] then some s!"pod {opener.name} was given a node in NodePool {p.name}, which cannot host it"
         else
           match pools.find? (fun q => decide (p.weight < q.weight) && hosts q [opener]) with
